@@ -2544,6 +2544,14 @@ func (m *Machine) handlerLoop() {
 
 		m.loopLock.Lock()
 
+		// a disposed machine closes [Machine.handlerEnd] (under loopLock), and
+		// nobody waits for the result anymore
+		if m.disposed.Load() {
+			m.loopLock.Unlock()
+
+			return false
+		}
+
 		// pass the result to handlerLoop
 		select {
 		case <-m.ctx.Done():
